@@ -592,8 +592,23 @@ def _field_sets(f: FuncInfo):
                     acc |= s
                 elif _dt(x.comparators[0]):
                     acc.add(_dt(x.comparators[0]))
+                elif isinstance(x.comparators[0], ast.Name) and x.comparators[0].id in f.module.assigns:
+                    acc |= _table_keys(f.module.assigns[x.comparators[0].id])
+            elif isinstance(x, ast.Call) and isinstance(x.func, ast.Attribute) and x.func.attr == "get" and isinstance(x.func.value, ast.Name) and x.func.value.id in f.module.assigns:
+                # a module-level table looked the dtype up in: its keys are the accepted dtypes
+                acc |= _table_keys(f.module.assigns[x.func.value.id])
+            elif isinstance(x, ast.Subscript) and isinstance(x.value, ast.Name) and x.value.id in f.module.assigns and isinstance(f.module.assigns[x.value.id], ast.Dict):
+                acc |= _table_keys(f.module.assigns[x.value.id])
         out[fld] = acc
     return out
+
+
+def _table_keys(e) -> set[str]:
+    """DataType names that are the keys of a dict display / the members of a set, tuple or frozenset(...) display."""
+    if isinstance(e, ast.Dict):
+        return {_dt(k) for k in e.keys if k is not None and _dt(k)}
+    s = _dt_set(e)
+    return set(s) if s else set()
 
 
 def rule_r5(ctx):
